@@ -561,6 +561,11 @@ func scalarCastable(e reflect.Type, named bool) bool {
 func castable(t reflect.Type, named bool) bool {
 	switch t.Kind() {
 	case reflect.Pointer:
+		// a user-declared pointer to a slice or map is cast like the
+		// collection and re-wrapped
+		if k := t.Elem().Kind(); (k == reflect.Slice || k == reflect.Map) && !implementsText(t.Elem()) {
+			return castable(t.Elem(), named)
+		}
 		return scalarCastable(t.Elem(), named)
 	case reflect.Slice:
 		if implementsText(t) {
